@@ -42,7 +42,7 @@ decasteljau(const std::vector<LieGroup>& trajectory,
 
   // Number of connected, non-overlapping segments
   const unsigned int n_segments = static_cast<unsigned int>(
-      std::floor(double(trajectory.size()-degree)/double((degree-1)+1))
+      std::floor(double(trajectory.size()-degree)/double(degree-1)+1)
   );
 
   std::vector<std::vector<const LieGroup*>> segments_control_points;
